@@ -363,6 +363,7 @@ func (pkg *Package) enumSchemaFromDesc(sch *schema_j5pb.Enum) *EnumSchema {
 			name:        src.Name,
 			description: src.Description,
 			number:      src.Number,
+			Info:        src.Info,
 		}
 	}
 	return &EnumSchema{
@@ -372,7 +373,8 @@ func (pkg *Package) enumSchemaFromDesc(sch *schema_j5pb.Enum) *EnumSchema {
 			name:        sch.Name,
 			pkg:         pkg,
 		},
-		Options: opts,
+		Options:    opts,
+		InfoFields: sch.Info,
 	}
 }
 
